@@ -322,6 +322,23 @@ theorem dt2str_roundtrip_str (t : Int) (h0 : mkDate 1000 1 1 ≤ t) (h1 : t < MA
 example : dt2str 63083133040000050 = "2000-01-10T20:30:40.000050" ∧ mkDate 1000 1 1 ≤ 63083133040000050 ∧ (63083133040000050 : Int) < MAXUS := by
   decide +kernel
 
+/-! ### the Gregorian table the clauses above rest on -/
+
+/-- every one of the 146097 ordinals of 1900-01-01 .. 2299-12-31 was evaluated by the kernel (147 chunks, no axioms):
+`fromOrd n` is a calendar date whose ordinal is `n` -/
+theorem greg_cycle_swept (n : Nat) (h1 : ordMin ≤ n) (h2 : n < ordMax) : chkOrd n = true := sweep_cycle n h1 h2
+
+/-- date → ordinal → date for EVERY date `datetime` represents (years 1..9999): the swept cycle plus 400-year periodicity -/
+theorem greg_roundtrip (y m d : Nat) (v : Valid y m d) : fromOrd (ord y m d) = ⟨y, m, d⟩ := fromOrd_ord_all y m d v.toU
+
+/-- ordinal → date → ordinal for every ordinal `1 .. 3652059` -/
+theorem greg_roundtrip_ord (n : Nat) (h1 : 1 ≤ n) (h2 : n ≤ 3652059) :
+    Valid (fromOrd n).y (fromOrd n).m (fromOrd n).d ∧ ord (fromOrd n).y (fromOrd n).m (fromOrd n).d = n :=
+  ord_fromOrd_all n h1 h2
+
+/-- `dt(date)` / the fields of a constructed date: `(t.year, t.month, t.day)` of `datetime(y, m, d)` are `(y, m, d)` -/
+theorem fields_of_date (y m d : Nat) (v : Valid y m d) : ymdOf (mkDate y m d) = ⟨y, m, d⟩ := ymdOf_mkDate y m d v
+
 /-! ### ymd() drops the time of day -/
 
 /-- `ymd(t)` is midnight of the same day, for every representable datetime -/
